@@ -120,7 +120,7 @@ class ModelMixin3:
 
     def copy_elem(self, e: Ref, st: State, node, deep=True):
         ee: ElemE = st.get(e.sym)
-        sym = st.new(ElemE('COPY', ee.tag, None, False, ('copy', S(e.sym)), schema=ee.schema, copy_of=e.sym, stag=ee.stag))
+        sym = st.new(ElemE('COPY', ee.tag, None, False, ('copy' if deep else 'shallowcopy', S(e.sym)), schema=ee.schema, copy_of=e.sym, stag=ee.stag))
         self.hook('copy', st, node, src=e, result=Ref('elem', sym), deep=deep)
         return [(Ref('elem', sym), st)]
 
@@ -172,8 +172,13 @@ class ModelMixin3:
             # accumulating list: keep distinct templates
             items = list(le.items)
             owned = list(le.owned) if len(le.owned) == len(le.items) else [()] * len(le.items)
-            key = self._vk(v, st)
-            if not any(self._vk(x, st) == key for x in items):
+            def coarse(x):
+                k = self._vk(x, st)
+                if isinstance(k, tuple) and k and k[0] == 'elem':
+                    return k[:3] + k[4:]        # element templates are compared modulo their current attachment state
+                return k
+            key = coarse(v)
+            if not any(coarse(x) == key for x in items):
                 items.append(v)
                 owned.append(self.reachable(v, st, le.born))
             hi = None if le.hi is None else le.hi + 1
@@ -188,6 +193,14 @@ class ModelMixin3:
             base = le
             # list(parent).index(child) -> child index
             if le.kind in ('children', 'live') and le.parent and args:
+                if le.dirty:
+                    s2 = st.copy()
+                    why = f'position in a snapshot of the children of {self.describe(Ref("elem", le.parent), st)} taken before that element was modified'
+                    outs = [(Ref('idx', st.new(IdxE('stale', le.parent, args[0].sym if isinstance(args[0], Ref) else None, why=why))), st)]
+                    a0 = args[0]
+                    if not (isinstance(a0, Ref) and a0.kind == 'elem' and st.get(a0.sym).parent == le.parent):
+                        outs.append((self.exc('ValueError', s2, node, 'value is not in list'), s2))
+                    return outs
                 return self.child_index(Ref('elem', le.parent), args[0], st, node)
             s2 = st.copy()
             return [(Ref('idx', st.new(IdxE('foreign', why=f'position in {self.describe(recv, st)}'))), st),
@@ -212,7 +225,12 @@ class ModelMixin3:
             st.put(recv.sym, replace(le, kind='accum' if le.kind != 'lit' else 'lit', lo=0, hi=None))
             return [(NoneV(), st)]
         if name in ('add', 'update', 'discard'):
-            st.put(recv.sym, replace(le, lo=le.lo, hi=None, items=le.items + tuple(args[:1])))
+            items = le.items
+            if name == 'add' and args:
+                key = self._vk(args[0], st)
+                if not any(self._vk(x, st) == key for x in items):
+                    items = items + (args[0],)
+            st.put(recv.sym, replace(le, kind='set' if le.kind in ('lit', 'set') else le.kind, lo=0, hi=None, items=items, ordered=False))
             return [(NoneV(), st)]
         self.note(f'list.{name} not modelled')
         return [(Unknown('list.' + name), st)]
